@@ -102,6 +102,11 @@ func leafVariants() []leafDoc {
 		{"wrapper", `<mj-wrapper><mj-section><mj-column>`, `</mj-column></mj-section></mj-wrapper>`},
 		{"hero", `<mj-hero>`, `</mj-hero>`},
 		{"padded-column", `<mj-section><mj-column padding="10px" border="1px solid #000">`, `</mj-column></mj-section>`},
+		// a hero is a legal child of a wrapper too: alone, behind and in front of a section, in a full-width wrapper
+		{"hero-in-wrapper", `<mj-wrapper><mj-hero>`, `</mj-hero></mj-wrapper>`},
+		{"hero-in-fw-wrapper", `<mj-wrapper full-width="full-width" background-color="#eeeeee"><mj-section><mj-column><mj-text>s</mj-text></mj-column></mj-section><mj-hero>`, `</mj-hero></mj-wrapper>`},
+		{"hero-then-section-in-wrapper", `<mj-wrapper padding="10px 30px"><mj-hero mode="fixed-height" height="300px" background-url="http://x/h.png">`, `</mj-hero><mj-section><mj-column><mj-text>s</mj-text></mj-column></mj-section></mj-wrapper>`},
+		{"group-in-wrapper", `<mj-wrapper><mj-section><mj-group><mj-column><mj-text>g1</mj-text></mj-column><mj-column>`, `</mj-column></mj-group></mj-section></mj-wrapper>`},
 	}
 	var out []leafDoc
 	out = append(out, attrSweepDocs()...)
@@ -115,6 +120,15 @@ func leafVariants() []leafDoc {
 			`<mj-raw><p>a<br>b</p><img src="i.png"><hr></mj-raw>`,
 			`<mj-raw><meta name="x" content="y"></mj-raw>`,
 			`<mj-raw><!-- plain comment --></mj-raw>`,
+		}
+		// containers whose only content is text or a comment (no component children), at body level and inside a wrapper
+		for ci, content := range []string{`<!-- note -->`, `plain text`, `<!-- a -->text<!-- b -->`, ` `, `<!-- it's -->`} {
+			for ti, tmpl := range []string{`<mj-section>%s</mj-section>`, `<mj-wrapper><mj-section>%s</mj-section></mj-wrapper>`, `<mj-wrapper>%s</mj-wrapper>`,
+				`<mj-section><mj-column>%s</mj-column></mj-section>`, `<mj-section><mj-group>%s</mj-group></mj-section>`, `<mj-hero>%s</mj-hero>`,
+				`<mj-wrapper><mj-section><mj-column><mj-text>a</mj-text></mj-column></mj-section><mj-section>%s</mj-section></mj-wrapper>`,
+				`<mj-section><mj-column><mj-text>a</mj-text></mj-column>%s</mj-section>`, `<mj-wrapper full-width="full-width"><mj-section full-width="full-width">%s</mj-section></mj-wrapper>`} {
+				out = append(out, leafDoc{desc: fmt.Sprintf("textonly/%d-%d", ti, ci), src: "<mjml><mj-body>" + fmt.Sprintf(tmpl, content) + "</mj-body></mjml>"})
+			}
 		}
 		sec := `<mj-section><mj-column><mj-text>T</mj-text></mj-column></mj-section>`
 		blocks := []string{sec, `<mj-wrapper>` + sec + `</mj-wrapper>`, `<mj-hero><mj-text>H</mj-text></mj-hero>`,
